@@ -133,6 +133,32 @@ static void shm_run(int n, int precreate)
 static void h_shmcreate(int argc, char **argv) { shm_run(argc > 0 ? atoi(argv[0]) : 2, 0); }
 static void h_shmlock(int argc, char **argv) { shm_run(argc > 0 ? atoi(argv[0]) : 2, 1); }
 
+/* shmrace: p_shm_new of an existing name races with the owner's free.  The racing open may fail cleanly or get a handle; afterwards
+ * (every handle freed by an owner) the name must be gone and a new p_shm_new must give a fresh zero-filled segment of the new size */
+static void *shmrace_opener(void *arg)
+{
+    PShm *h = p_shm_new(NAME, 64, P_SHM_ACCESS_READWRITE, NULL); (void)arg;
+    if (h) { p_shm_take_ownership(h); p_shm_free(h); mc_nontrivial(1); } else mc_nontrivial(2);
+    return NULL;
+}
+static void h_shmrace(int argc, char **argv)
+{
+    PShm *owner, *fresh; int t; char live[400]; (void)argc; (void)argv;
+    mkname(); shm_mode = "openrace";
+    owner = p_shm_new(NAME, 64, P_SHM_ACCESS_READWRITE, NULL);
+    if (!owner) mc_fail("C07", ssig("new-failed"), "p_shm_new failed");
+    ((char *)p_shm_get_address(owner))[5] = 7;
+    t = mc_thread_create(shmrace_opener, NULL);
+    p_shm_free(owner);                          /* creator = owner: removes the names */
+    mc_thread_join(t);
+    if (ipcnames_live(live, sizeof live)) mc_fail("C07", ssig("names-left-after-owner-free"), "IPC names still exist after every handle was freed by an owner: %s", live);
+    fresh = p_shm_new(NAME, 8192, P_SHM_ACCESS_READWRITE, NULL);
+    if (!fresh) mc_fail("C07", ssig("fresh-new-failed"), "after the owner free (raced by an open) p_shm_new cannot create the name again");
+    if (p_shm_get_size(fresh) != 8192 || ((char *)p_shm_get_address(fresh))[5] != 0) mc_fail("C07", ssig("fresh-not-fresh"), "p_shm_new after the owner free returned size %lu / old data", (unsigned long)p_shm_get_size(fresh));
+    p_shm_free(fresh);
+    mc_outcome("ok");
+}
+
 /* ------------------------------------------------------------------ shm buffer */
 #define CAP 4
 typedef struct { char op; int res; unsigned char data[4]; int n; } BOp;
@@ -188,6 +214,6 @@ static void h_shmbuf(int argc, char **argv)
 }
 
 static const McHarness HS[] = {
-    {"sem", h_sem, "<threads> <init>"}, {"semrace", h_semrace, ""}, {"shmcreate", h_shmcreate, "<participants>"}, {"shmlock", h_shmlock, "<participants>"}, {"shmbuf", h_shmbuf, "<script>..."},
+    {"sem", h_sem, "<threads> <init>"}, {"semrace", h_semrace, ""}, {"shmcreate", h_shmcreate, "<participants>"}, {"shmlock", h_shmlock, "<participants>"}, {"shmrace", h_shmrace, ""}, {"shmbuf", h_shmbuf, "<script>..."},
 };
-int main(int argc, char **argv) { return mc_main(argc, argv, HS, 5); }
+int main(int argc, char **argv) { return mc_main(argc, argv, HS, 6); }
